@@ -25,6 +25,20 @@
 //        OTHER - the next std::thread is constructed right after the join, which is
 //        what makes the OS recycle the thread id -, then the lead records its second
 //        half and stays alive; reports what each thread called
+//   sessions (spec/tracing/TraceSessions.tla): private instances of the exported class
+//   TraceRecorder beside the global API (recorder 0 = the free functions)
+//     RCreate {r} / RDestroy {r}      new TraceRecorder / the recorder and every list it handed out are
+//                                     destroyed, followed by a few thousand small std::string allocations
+//                                     and frees (what a program does between two sessions)
+//     RMarker / RCounter / RBegin / REnd {r, t, src, csrc, val}   thread t records into recorder r through
+//                                     r.getThreadTraceList(its id); the name comes from source src:
+//                                     L1 / L2 string literals (the same `static const char *` for every
+//                                     session), D a run-time string with the text of L1 at its own address,
+//                                     BUF the thread's scratch buffer (one address) holding "buf<r>";
+//                                     reports the texts it passed
+//     RSave {r, pname}                r.saveLog(...), observation as for SaveLog, plus same_ptr_after_destroy:
+//                                     number of events so far whose name pointer was the last name pointer
+//                                     the same thread had used in an earlier, already destroyed recorder
 //   SaveLog {pname, raw}    saveLog(file, pname or nullptr) from the driver's main thread,
 //        then reads the file back with the strict JSON reader below and reports
 //          json     "wellformed" | "malformed" (+ why / head / tail of the text)
@@ -222,6 +236,9 @@ struct Worker
   bool hasJob = false, busy = false, quit = false;
   std::map<std::string, std::unique_ptr<std::string>> names; // one stable pointer per distinct text
 
+  char buf[32];                       // scratch buffer: one address, text depends on the recorder
+  const char *lastPtr = nullptr;      // last name pointer this thread recorded with, and into which recorder
+  long long lastRec = -1;
   std::thread::id id;
   Worker() { th = std::thread([this] { loop(); }); id = th.get_id(); }
   ~Worker()
@@ -284,7 +301,17 @@ struct Rec
 struct World
 {
   std::map<long long, std::unique_ptr<Worker>> workers;
-  std::set<std::string> counterNames; // names of the counters the history recorded
+  std::set<std::string> counterNames; // names of the counters the history recorded (global recorder)
+  struct Session
+  {
+    std::unique_ptr<tr::TraceRecorder> rec;
+    std::map<long long, std::shared_ptr<tr::ThreadEventList>> lists; // per specification thread
+    std::set<std::string> counterNames;
+  };
+  std::map<long long, Session> sessions;
+  std::set<long long> destroyed;
+  std::vector<std::unique_ptr<std::string>> dynNames; // run-time strings, each at its own address, alive to the end
+  long long samePtrAfterDestroy = 0;
   std::string dir;
   long counter = 0;
   long long clock = 0;                               // logical time of creations and joins (main thread only)
@@ -374,14 +401,17 @@ struct World
     return r;
   }
 
-  Json saveLog(const Json &arg)
+  Json saveLog(const Json &arg) { return saveLogOf(arg, nullptr, counterNames); }
+
+  Json saveLogOf(const Json &arg, tr::TraceRecorder *priv, const std::set<std::string> &counterNames)
   {
     char name[64];
     snprintf(name, sizeof name, "/trace-%ld-%ld.json", (long)getpid(), counter++);
     const std::string path = dir + name;
     unlink(path.c_str());
     const std::string pname = arg["pname"].str();
-    tr::saveLog(path.c_str(), pname.empty() ? nullptr : pname.c_str());
+    if (priv) priv->saveLog(path.c_str(), pname.empty() ? nullptr : pname.c_str());
+    else tr::saveLog(path.c_str(), pname.empty() ? nullptr : pname.c_str());
     std::string text;
     {
       std::ifstream f(path, std::ios::binary);
@@ -405,6 +435,7 @@ struct World
     o.set("json", ok ? "wellformed" : "malformed");
     o.set("bytes", (long long)text.size());
     lifeInto(o);
+    o.set("same_ptr_after_destroy", samePtrAfterDestroy);
     if (!ok) {
       o.set("why", why);
       o.set("head", text.substr(0, 120));
@@ -436,6 +467,84 @@ struct World
     o.set("entries", (long long)raw.size());
     o.set("extra_entries", extras);
     if ((arg.has("raw") && arg["raw"].boolean()) || raw.size() <= 100) o.set("log", raw);
+    return o;
+  }
+
+  // what happens between two sessions of a program: many small strings come and go
+  void churn()
+  {
+    uint64_t s = 0x9E3779B97F4A7C15ull + (uint64_t)destroyed.size();
+    std::vector<std::unique_ptr<std::string>> v;
+    for (int i = 0; i < 4000; ++i) {
+      s ^= s << 13; s ^= s >> 7; s ^= s << 17;
+      v.emplace_back(new std::string((size_t)(4 + s % 40), (char)('a' + s % 26)));
+      if (i % 3 == 2) v[(size_t)(s % v.size())].reset();
+    }
+  }
+
+  Json sessionRecord(const std::string &a, const Json &arg)
+  {
+    const long long r = arg["r"].num(), t = arg["t"].num(), val = arg["val"].num();
+    const std::string src = arg["src"].type == Json::Str ? arg["src"].str() : std::string();
+    const std::string csrc = arg["csrc"].type == Json::Str ? arg["csrc"].str() : std::string();
+    Session *ses = nullptr;
+    if (r != 0) {
+      auto it = sessions.find(r);
+      if (it == sessions.end()) throw std::runtime_error("driver: recording into a recorder that does not exist");
+      ses = &it->second;
+    }
+    Worker *w = &worker(t);
+    std::string nameText, catText;
+    const char *namePtr = nullptr;
+    World *self = this;
+    w->post([=, &nameText, &catText, &namePtr] {
+      // the pointers are formed on the recording thread, as a caller would
+      auto resolve = [&](const std::string &sc, char *buf) -> const char * {
+        static const char *const kL1 = "frame";
+        static const char *const kL2 = "tick";
+        if (sc == "L1") return kL1;
+        if (sc == "L2") return kL2;
+        if (sc == "D") {
+          self->dynNames.emplace_back(new std::string("frame"));
+          return self->dynNames.back()->c_str();
+        }
+        if (sc == "BUF") {
+          snprintf(buf, 32, "buf%lld", r);
+          return buf;
+        }
+        return nullptr;
+      };
+      static thread_local char catBuf[32];
+      const char *np = resolve(src, w->buf);
+      const char *cp = resolve(csrc, catBuf);
+      namePtr = np;
+      if (np) nameText = np;
+      if (cp) catText = cp;
+      if (ses) {
+        std::shared_ptr<tr::ThreadEventList> &l = ses->lists[t];
+        if (!l) l = ses->rec->getThreadTraceList(std::this_thread::get_id());
+        if (a == "RMarker") l->setMarker(np, cp);
+        else if (a == "RCounter") l->setCounter(np, (uint64_t)val);
+        else if (a == "RBegin") l->beginEvent(np, cp);
+        else l->endEvent();
+      } else {
+        if (a == "RMarker") tr::setMarker(np, cp);
+        else if (a == "RCounter") tr::setCounter(np, (uint64_t)val);
+        else if (a == "RBegin") tr::beginEvent(np, cp);
+        else tr::endEvent();
+      }
+    });
+    w->wait();
+    if (a == "RCounter") (ses ? ses->counterNames : counterNames).insert(nameText);
+    if (namePtr) {
+      if (namePtr == w->lastPtr && w->lastRec != r && destroyed.count(w->lastRec)) ++samePtrAfterDestroy;
+      w->lastPtr = namePtr;
+      w->lastRec = r;
+    }
+    Json o = Json::object();
+    o.set("ret", "void");
+    o.set("name", nameText);
+    o.set("cat", catText);
     return o;
   }
 
@@ -554,6 +663,31 @@ struct World
       o.set("rec", recJson(recs));
       return o;
     }
+    if (a == "RCreate") {
+      const long long r = arg["r"].num();
+      if (r <= 0 || sessions.count(r) || destroyed.count(r)) throw std::runtime_error("driver: RCreate of an existing recorder");
+      sessions[r].rec.reset(new tr::TraceRecorder());
+      o.set("ret", "void");
+      return o;
+    }
+    if (a == "RDestroy") {
+      const long long r = arg["r"].num();
+      auto it = sessions.find(r);
+      if (it == sessions.end()) throw std::runtime_error("driver: RDestroy of a recorder that does not exist");
+      sessions.erase(it);      // the lists handed out and the recorder itself
+      destroyed.insert(r);
+      churn();
+      o.set("ret", "void");
+      return o;
+    }
+    if (a == "RSave") {
+      const long long r = arg["r"].num();
+      if (r == 0) return saveLog(arg);
+      auto it = sessions.find(r);
+      if (it == sessions.end()) throw std::runtime_error("driver: RSave of a recorder that does not exist");
+      return saveLogOf(arg, it->second.rec.get(), it->second.counterNames);
+    }
+    if (a == "RMarker" || a == "RCounter" || a == "RBegin" || a == "REnd") return sessionRecord(a, arg);
     const long long t = arg["t"].num();
     if (a == "ThreadStart") {
       if (workers.count(t) || born.count(t)) throw std::runtime_error("driver: ThreadStart of a thread that already exists");
